@@ -150,11 +150,13 @@ class Seeds:
     """field_seeds: {(adt path, field index): (scale, desc)}; param_seeds: {instance name: {param index (0-based): scale}};
     correction: (adt path, field index) of the leap-second correction."""
 
-    def __init__(self, field_seeds, param_seeds, correction, correction_getter=None):
+    def __init__(self, field_seeds, param_seeds, correction, correction_getter=None, offset=None, offset_getter=None):
         self.field_seeds = field_seeds
         self.param_seeds = param_seeds
         self.correction = correction
         self.correction_getter = correction_getter
+        self.offset = offset  # (adt path, field index) of the UTC offset of a local time type: civil = UTC + offset
+        self.offset_getter = offset_getter
 
 
 class Analysis:
@@ -381,6 +383,41 @@ class Analysis:
                 self.conversions[inst["id"]] = {"dir": None, "name": inst["name"]}
                 continue
             self.conversions[inst["id"]] = {"dir": dirs.pop(), "param": params[0], "name": inst["name"], "span": inst.get("span")}
+
+    def derived_locals(self, inst, field, getter):
+        """Locals that hold (a copy or an integer conversion of) the given field / the result of its public getter."""
+        body = inst["body"]
+        der = set()
+        if field is None:
+            return der
+        changed = True
+        while changed:
+            changed = False
+            for b in body["blocks"]:
+                for st in b["stmts"]:
+                    if st["k"] != "assign" or st["place"]["p"]:
+                        continue
+                    rv = st["rv"]
+                    src = None
+                    if rv["k"] == "use":
+                        src = rv["op"].get("c") or rv["op"].get("m")
+                    elif rv["k"] == "copy_for_deref":
+                        src = rv.get("place")
+                    elif rv["k"] == "cast" and rv.get("ck") == "IntToInt":
+                        src = rv["op"].get("c") or rv["op"].get("m")
+                    if src is None:
+                        continue
+                    hit = (not src["p"] and src["l"] in der) or self.place_hits_field(body, src, field)
+                    if hit and st["place"]["l"] not in der:
+                        der.add(st["place"]["l"])
+                        changed = True
+                t = b["term"]
+                if t["k"] == "call" and t["f"]["k"] == "item" and not t["dest"]["p"]:
+                    r = t["f"]["resolved"] or t["f"]["declared"]
+                    if r.get("local") and r.get("inst") is not None and self.insts[r["inst"]]["name"] == getter and t["dest"]["l"] not in der:
+                        der.add(t["dest"]["l"])
+                        changed = True
+        return der
 
     def place_hits_field(self, body, pl, target):
         if target is None:
@@ -723,6 +760,32 @@ class Analysis:
         uf = G["uf"]
         body = inst["body"]
         delta = G["delta"][inst["id"]]
+        oder = self.derived_locals(inst, self.S.offset, self.S.offset_getter)
+
+        def is_off(op):
+            pl = op.get("c") or op.get("m")
+            return pl is not None and not pl["p"] and pl["l"] in oder
+
+        def offset_shift(kind, ops, nodes, res, span):
+            """`time + offset` / `time - offset`: civil = UTC + offset. Returns True when the operation was one."""
+            offs = [is_off(o) for o in ops]
+            if sum(offs) != 1:
+                return False
+            k = offs.index(True)
+            other, on = ops[1 - k], nodes[1 - k]
+            if is_delta(other) or on is None:
+                return True  # offset arithmetic among deltas: no scale involved
+            if kind == "add":
+                uf.seed(on, "U", "the time operand of `time + UTC offset` (civil = UTC + offset)", span)
+                uf.seed(res, "C", "the result of `time + UTC offset` (a civil / local clock reading)", span)
+                self.stats["offset_shifts"] = self.stats.get("offset_shifts", 0) + 1
+            elif kind == "sub" and k == 1:
+                uf.seed(on, "C", "the time operand of `time - UTC offset` (UTC = civil - offset)", span)
+                uf.seed(res, "U", "the result of `time - UTC offset` (a UTC instant)", span)
+                self.stats["offset_shifts"] = self.stats.get("offset_shifts", 0) + 1
+            return True
+
+        G.setdefault("offset_shift", {})[inst["id"]] = offset_shift
 
         def is_delta(op):
             if "k" in op and isinstance(op["k"], dict):
@@ -776,6 +839,9 @@ class Analysis:
                             G.setdefault("cmp_nodes", []).append((a, inst, span))
                     elif op in ADD_OPS and isinstance(rv.get("ty"), int) and self.is_time_int(rv["ty"]):
                         res = uf.child(dst, ("t", 0)) if op.endswith("WithOverflow") else dst
+                        nodes2 = [self.op_node(G, inst, o, at)[0] for o in (rv["a"], rv["b"])]
+                        if offset_shift("add" if op.startswith("Add") else "sub", (rv["a"], rv["b"]), nodes2, res, span):
+                            continue
                         for o in (rv["a"], rv["b"]):
                             if not is_delta(o):
                                 s, _ = self.op_node(G, inst, o, at)
@@ -868,6 +934,8 @@ class Analysis:
 
         def inst_node(cn, depth=0):
             r = cuf.find(cn)
+            if r in S.get("conflict_reps", ()):
+                return uf.new("<conflicting class of %s>" % callee["name"].rsplit("::", 1)[-1])
             if r in memo:
                 return memo[r]
             n = uf.new("<%s>" % callee["name"].rsplit("::", 1)[-1])
@@ -934,6 +1002,8 @@ class Analysis:
                 res = uf.child(dst, ("targ", 0))
             elif shape == "pair":
                 res = uf.child(dst, ("t", 0))
+            if G["offset_shift"][inst["id"]](kind, t["args"], [a for a, _ in argn], res, span):
+                return
             for o, (a, _) in zip(t["args"], argn):
                 if a is not None and not is_delta(o):
                     uf.union(res, a, self.why(inst, span, "arithmetic (%s) keeps the scale of its time operand" % name))
@@ -1059,9 +1129,12 @@ class Analysis:
                 self.stats["classes_U"] += 1
             elif scales == {"L"}:
                 self.stats["classes_L"] += 1
-            if "U" in scales and "L" in scales:
-                us = [(n, s) for n, s in lst if s[0] == "U"]
-                ls = [(n, s) for n, s in lst if s[0] == "L"]
+            if scales == {"C"}:
+                self.stats["classes_C"] = self.stats.get("classes_C", 0) + 1
+            if len(scales) > 1:
+                order = [x for x in ("U", "L", "C") if x in scales]
+                us = [(n, s) for n, s in lst if s[0] == order[0]]
+                ls = [(n, s) for n, s in lst if s[0] == order[1]]
                 best = None
                 for un, u in us[:6]:
                     for ln, l in ls[:6]:
@@ -1074,9 +1147,12 @@ class Analysis:
                     fn = w.split(" [", 1)[0]
                     if fn not in fns and not fn.startswith("inside "):
                         fns.append(fn)
+                # reported here, where it arises; callers do not inherit the seeds of a conflicting class
+                G["class_seeds"][r] = []
+                G.setdefault("conflict_reps", set()).add(r)
                 self.findings.append({
                     "group": self.insts[G["top"]]["name"],
-                    "u_seed": u[1], "l_seed": l[1], "u_where": u[2], "l_where": l[2],
+                    "scales": order, "u_seed": "%s: %s" % (order[0], u[1]), "l_seed": "%s: %s" % (order[1], l[1]), "u_where": u[2], "l_where": l[2],
                     "u_node": uf.desc[un], "l_node": uf.desc[ln],
                     "chain": p, "functions": fns,
                 })
